@@ -5,9 +5,9 @@
 
    Integer widths as in the Go code: ackNo uint64, frameNo uint32 (wraps), unacked uint16 (wraps),
    windowSize/ssThresh uint16 (conversion from float64), rtoCounter/duplicatedAckCounter/numFrames int
-   (modelled in Z where they can go negative).  cwndSize is a float64: modelled with Coq's primitive
-   binary64 floats (PrimFloat), evaluated by vm_compute exactly as the hardware does; no theorem depends
-   on its value.  RTT is a measured quantity (time.Since): the driver passes the value the real run ended
+   (modelled in Z where they can go negative).  cwndSize is a float64: modelled with binary64 arithmetic written
+   in Gallina (Model/TubesFloat.v, round-to-nearest-even on positive normal numbers; checked against the
+   hardware by the correspondence on every run); no theorem depends on its value.  RTT is a measured quantity (time.Since): the driver passes the value the real run ended
    up with as an oracle input `rtt`; RTO is then computed as the code does.  Durations in nanoseconds.
 
    This file follows the *repaired* RetransmitTicker case (fix: "cap RTO at maxRTO instead of dropping the
@@ -15,7 +15,7 @@
    recvAck follows the repaired code of group `wire` (an acknowledgement beyond what was sent is an
    error, where the original indexed frames[0] of an empty slice and panicked). *)
 From Hop Require Import Base Recv.
-From Coq Require Import Floats.
+From Hop Require Import TubesFloat.
 Open Scope N_scope.
 
 Definition two16 : N := 65536.
@@ -25,14 +25,14 @@ Definition min_window_size : N := 10.               (* minWindowSize *)
 Definition initial_rtt : N := 333000000.            (* 333 ms *)
 Definition max_rto : N := 10000000000.              (* 10 s *)
 
-(* ---- float64 helpers *)
-Definition f_trunc (f : float) : Z :=              (* Go's integer conversion of a non-negative finite float64 *)
-  let (m, e) := PrimFloat.frshiftexp f in
-  let mi := Uint63.to_Z (PrimFloat.normfr_mantissa m) in
-  let ex := (Uint63.to_Z e - FloatOps.shift - 53)%Z in
-  if (0 <=? ex)%Z then (mi * 2 ^ ex)%Z else (mi / 2 ^ (- ex))%Z.
-Definition f_to_u16 (f : float) : N := Z.to_N (f_trunc f) mod two16.     (* uint16(cwndSize) *)
-Definition f_of_N (n : N) : float := PrimFloat.of_uint63 (Uint63.of_Z (Z.of_N n)).
+(* ---- float64 helpers (Model/TubesFloat.v: binary64 arithmetic in Gallina) *)
+Definition float := fl.
+Definition f_to_u16 (f : float) : N := Z.to_N (fl_trunc f) mod two16.     (* uint16(cwndSize) *)
+Definition f1 : float := fl_of_Z 1.
+Definition f2 : float := fl_of_Z 2.
+Definition f3 : float := fl_of_Z 3.
+Definition f4 : float := fl_of_Z 4.
+Definition f10 : float := fl_of_Z 10.
 
 Inductive cstate := SlowStart | AIMD | FastRecovery.
 Definition cstate_code (c : cstate) : N := match c with SlowStart => 0 | AIMD => 1 | FastRecovery => 2 end.
@@ -66,7 +66,7 @@ Record sender := {
 }.
 
 Definition sender_new : sender := {|
-  s_ack := 1; s_fno := 1; s_unacked := 0; s_rtoc := 0%Z; s_cst := SlowStart; s_cwnd := 10%float;
+  s_ack := 1; s_fno := 1; s_unacked := 0; s_rtoc := 0%Z; s_cst := SlowStart; s_cwnd := f10;
   s_dup := 0%Z; s_ssth := 512; s_wsize := default_window_size; s_fin_sent := false; s_closed := false;
   s_frames := []; s_rto := initial_rtt |}.
 
@@ -138,8 +138,8 @@ Definition on_success (s : sender) (f0 : sframe) (rtt : N) : sender :=
   let '(cst, cwnd) :=
     if 1000 <? len (sf_data f0) then
       match s_cst s with
-      | AIMD => (AIMD, (s_cwnd s + 1 / s_cwnd s)%float)
-      | st => let c := (s_cwnd s + 1)%float in
+      | AIMD => (AIMD, fl_add (s_cwnd s) (fl_div f1 (s_cwnd s)))
+      | st => let c := fl_add (s_cwnd s) f1 in
               (if s_ssth s <? f_to_u16 c then AIMD else st, c)
       end
     else (s_cst s, s_cwnd s) in
@@ -161,11 +161,11 @@ Definition on_loss (s : sender) (ack32 : N) : sender * N :=
     else ack32 in
   let '(cst, cwnd, ssth) :=
     if cstate_eqb (s_cst s) AIMD && (dup =? 2)%Z then
-      let c := (3 * s_cwnd s / 4)%float in (AIMD, c, f_to_u16 c)
+      let c := fl_div (fl_mul f3 (s_cwnd s)) f4 in (AIMD, c, f_to_u16 c)
     else if cstate_eqb (s_cst s) SlowStart then
-      let c := (s_cwnd s / 2)%float in (FastRecovery, c, f_to_u16 c)
+      let c := fl_div (s_cwnd s) f2 in (FastRecovery, c, f_to_u16 c)
     else (s_cst s, s_cwnd s, s_ssth s) in
-  let cwnd := if (cwnd <? 10)%float then 10%float else cwnd in
+  let cwnd := if fl_ltb cwnd f10 then f10 else cwnd in
   (set_cc s cst cwnd dup ssth (s_wsize s), missing).
 
 (* ---- the acknowledgement loop of recvAck: pops one frame per acknowledged number.  Structural in the
@@ -199,7 +199,7 @@ Definition recv_ack (s : sender) (ack32 rtt : N) : res (sender * N * bool) :=
     let '(s1, missing) := if (old =? new) && (20 <? new) then on_loss s ack32 else (s, 0) in
     let window_open := (s_ack s1 <? new) || (cstate_eqb (s_cst s1) FastRecovery && (old =? new)) in
     let s2 := ack_loop (s_frames s1) s1 new rtt in
-    let cwnd := if (s_cwnd s2 <? 10)%float then 10%float else s_cwnd s2 in
+    let cwnd := if fl_ltb (s_cwnd s2) f10 then f10 else s_cwnd s2 in
     let s3 := set_cc s2 (s_cst s2) cwnd (s_dup s2) (s_ssth s2) (f_to_u16 cwnd) in
     Ok (s3, missing, window_open).
 
@@ -259,12 +259,12 @@ Definition rto_tick_common (s : sender) : sender * list emit * bool :=
   let rto_sent := (0 <? nf)%Z in
   let s1 := set_rto (set_unacked (set_frames s fr) u) (s_rto s * 2) (s_rtoc s) in
   let s2 := if rto_sent && cstate_eqb (s_cst s1) AIMD then
-              let c := (3 * s_cwnd s1 / 4)%float in
+              let c := fl_div (fl_mul f3 (s_cwnd s1)) f4 in
               set_rto (set_cc s1 FastRecovery c (s_dup s1) (s_ssth s1) (f_to_u16 c)) (s_rto s1) 0%Z
             else s1 in
   let s3 := if cstate_eqb (s_cst s2) FastRecovery then set_rto s2 (s_rto s2) (s_rtoc s2 + 1)%Z else s2 in
   let s4 := if rto_sent && cstate_eqb (s_cst s3) SlowStart then
-              let c := (s_cwnd s3 / 2)%float in
+              let c := fl_div (s_cwnd s3) f2 in
               set_cc s3 FastRecovery c (s_dup s3) (f_to_u16 c) (s_wsize s3)
             else s3 in
   (s4, em, rto_sent).
@@ -296,6 +296,11 @@ Definition send_fin (s : sender) : res (sender * list emit) :=
            s_wsize := s_wsize s; s_fin_sent := true; s_closed := s_closed s;
            s_frames := s_frames s ++ [pkt]; s_rto := s_rto s |},
         if empty then [(false, pkt)] else []).
+
+(* ---- Reliable.lastAckTimeout (repaired): the 4*RTT timer of the lastAck state closes the tube only when
+   at most the FIN is still unacknowledged; otherwise it re-arms.  (The original closed unconditionally.) *)
+Definition last_ack_timeout_closes (s : sender) : bool :=
+  negb (1 <? N.of_nat (List.length (s_frames s))).
 
 (* ------------------------------------------------------------------ histories on the sender *)
 (* An operation as the tube performs it, including the asynchronous follow-up in Reliable.send: a
@@ -373,4 +378,30 @@ Fixpoint writes_of (s : sender) (m : nat) (ops : list sop) : list bytes :=
       | SWrite b => if code =? 0 then b :: writes_of s1 m rest else writes_of s1 m rest
       | _ => writes_of s1 m rest
       end
+  end.
+
+(* the highest acknowledgement number accepted so far (recvAck returned without error) *)
+Fixpoint high_ack (m : nat) (s : sender) (ops : list sop) (h : N) : N :=
+  match ops with
+  | [] => h
+  | o :: rest =>
+      let '(s1, _, code) := sstep_m m s o in
+      high_ack m s1 rest (match o with SAck a _ => if code =? 0 then N.max h a else h | _ => h end)
+  end.
+
+(* an upper bound on the number of frames a history can create *)
+Fixpoint frames_upper (m : nat) (ops : list sop) : nat :=
+  match ops with
+  | [] => O
+  | SWrite b :: rest => (List.length (segments m b) + frames_upper m rest)%nat
+  | SFin :: rest => S (frames_upper m rest)
+  | _ :: rest => frames_upper m rest
+  end.
+
+(* all acknowledgement numbers of a history are 32-bit values (they come from a 4-byte field) *)
+Fixpoint acks_32bit (ops : list sop) : Prop :=
+  match ops with
+  | [] => True
+  | SAck a _ :: rest => a < two32 /\ acks_32bit rest
+  | _ :: rest => acks_32bit rest
   end.
